@@ -5,6 +5,7 @@
 -/
 import Stevia.Generated.HSet
 import Stevia.Proofs.GenLemmas
+import Stevia.Model.HashSetImpTerm
 
 namespace Stevia
 open HImp
@@ -31,22 +32,29 @@ theorem is_full_eq (hash : β → Nat) (d : HRec β) (m : HImage β) :
 theorem is_empty_eq (hash : β → Nat) (d : HRec β) (m : HImage β) :
     is_empty hash d m = decide (m.hdr.size = 0) := rfl
 
-/-- The scan loop shared by `contains` and `insert`. -/
+/-- `contains`: the translated scan answers what the literal scan answers, provided it leaves by its own condition
+    within the fuel (`HImp.scanT`); otherwise the translation fails. -/
 theorem contains_eq (hash : β → Nat) (d : HRec β) (m : HImage β) (v : β) :
-    contains hash d m v = HImp.contains hash d m v := by
+    contains hash d m v =
+      if m.hdr.size = 0 ∨ HImp.scanT d m v (m.recs.length + 1) (rdB d m (bucketIndex hash m v)).bucket = true
+      then some (HImp.contains hash d m v) else none := by
   unfold contains HImp.contains
-  simp only [forIn, Id.run, is_empty_eq, bucketIndex, decide_eq_true_eq]
+  simp only [forIn, is_empty_eq, bucketIndex, decide_eq_true_eq]
   by_cases h0 : m.hdr.size = 0
-  · simp only [h0, if_true]; rfl
-  · simp only [h0, if_false]
+  · simp only [h0, true_or, if_true]; rfl
+  · simp only [h0, false_or, if_false]
     generalize m.recs.length + 1 = fuel
     generalize (rdB d m (hash v % 4294967296 % m.hdr.cap)).bucket = cur
     induction fuel generalizing cur with
     | zero => rfl
     | succ n ih =>
-      simp only [Fuel.forIn, scan, ← ih]
-      repeat' split
-      all_goals first | rfl | simp_all
+      simp only [Fuel.forIn, scan, HImp.scanT]
+      by_cases hc : cur = 0
+      · simp only [hc, ne_eq, not_true_eq_false, not_false_eq_true, if_true, pure_bind]; rfl
+      · by_cases hv : (rd d m cur).val = v
+        · simp only [hc, hv, ne_eq, not_false_eq_true, not_true_eq_false, if_true, if_false, pure_bind]; rfl
+        · simp only [hc, hv, ne_eq, not_false_eq_true, not_true_eq_false, if_true, if_false, pure_bind]
+          exact ih _
 
 theorem add_node_eq (hash : β → Nat) (d : HRec β) (m : HImage β) (v : β) :
     add_node hash d m v = HImp.addNode d m v := by
@@ -65,21 +73,23 @@ theorem remove_node_eq (hash : β → Nat) (d : HRec β) (m : HImage β) (i : Na
   simp only [remove_node, HImp.removeNode, Id.run, bind, pure, hi, if_false, HImp.wr_wr, HImp.wr_hdr]
   rfl
 
-/-- The state of the scan loop of `insert` after `n` iterations. -/
+/-- The state `(early result, current, left by its condition)` of the scan loop of `insert` after `n` iterations. -/
 def scanSt (d : HRec β) (m : HImage β) (v : β) :
-    Nat → Option (HImage β × Bool) × Nat → Option (HImage β × Bool) × Nat
+    Nat → Option (HImage β × Bool) × Nat × Bool → Option (HImage β × Bool) × Nat × Bool
   | 0, s => s
   | n + 1, s =>
-    if s.2 = 0 then (none, s.2)
-    else if (rd d m s.2).val = v then (some (m, false), s.2)
-    else scanSt d m v n (none, (rd d m s.2).next)
+    if s.2.1 = 0 then (none, s.2.1, true)
+    else if (rd d m s.2.1).val = v then (some (m, false), s.2.1, s.2.2)
+    else scanSt d m v n (none, (rd d m s.2.1).next, s.2.2)
 
-theorem scanSt_fst (d : HRec β) (m : HImage β) (v : β) (n cur : Nat) :
-    (scanSt d m v n (none, cur)).1 = if scan d m v n cur then some (m, false) else none := by
+theorem scanSt_spec (d : HRec β) (m : HImage β) (v : β) (n cur : Nat) :
+    ((scanSt d m v n (none, cur, false)).1 = if scan d m v n cur then some (m, false) else none) ∧
+    (scan d m v n cur = false → (scanSt d m v n (none, cur, false)).2.2 = HImp.scanT d m v n cur) ∧
+    (scan d m v n cur = true → HImp.scanT d m v n cur = true) := by
   induction n generalizing cur with
-  | zero => rfl
+  | zero => exact ⟨rfl, fun _ => rfl, fun h => by simp [scan] at h⟩
   | succ n ih =>
-    simp only [scanSt, scan]
+    simp only [scanSt, scan, HImp.scanT]
     by_cases hc : cur = 0
     · simp [hc]
     · by_cases hv : (rd d m cur).val = v
@@ -87,20 +97,28 @@ theorem scanSt_fst (d : HRec β) (m : HImage β) (v : β) (n cur : Nat) :
       · simp only [hc, hv, if_false]; exact ih _
 
 theorem insert_eq (hash : β → Nat) (d : HRec β) (m : HImage β) (v : β) :
-    (insert hash d m v).getD (m, false) = HImp.insert hash d m v := by
-  unfold insert HImp.insert
+    insert hash d m v =
+      if m.hdr.size = m.hdr.cap ∨ HImp.scanT d m v (m.recs.length + 1) (rdB d m (bucketIndex hash m v)).bucket = true
+      then HImp.insertO hash d m v else none := by
+  unfold insert HImp.insertO
   simp only [forIn, size_eq, capacity_eq, add_node_eq, bucketIndex]
   by_cases h0 : m.hdr.size = m.hdr.cap
-  · simp only [h0, if_true]; rfl
-  · simp only [h0, if_false]
+  · simp only [h0, true_or, if_true]; rfl
+  · simp only [h0, false_or, if_false]
     rw [Fuel.forIn_eq_of_opt _ (scanSt d m v) (fun s => rfl)]
-    · simp only [Option.bind_eq_bind, Option.bind_some, scanSt_fst]
+    · obtain ⟨h1, h2, h3⟩ := scanSt_spec d m v (m.recs.length + 1) (rdB d m (hash v % 4294967296 % m.hdr.cap)).bucket
+      simp only [Option.bind_eq_bind, Option.bind_some, h1]
       by_cases hs : scan d m v (m.recs.length + 1) (rdB d m (hash v % 4294967296 % m.hdr.cap)).bucket = true
-      · simp only [hs, if_true]; rfl
-      · simp only [hs, if_false]
-        cases HImp.addNode d m v <;> rfl
+      · simp only [hs, h3 hs, if_true]; rfl
+      · have hs' : scan d m v (m.recs.length + 1) (rdB d m (hash v % 4294967296 % m.hdr.cap)).bucket = false := by
+          simpa using hs
+        simp only [hs', Bool.false_eq_true, if_false, h2 hs']
+        by_cases hT : HImp.scanT d m v (m.recs.length + 1) (rdB d m (hash v % 4294967296 % m.hdr.cap)).bucket = true
+        · simp only [hT, not_true_eq_false, if_false, if_true]
+          cases HImp.addNode d m v <;> rfl
+        · simp only [hT, Bool.false_eq_true, not_false_eq_true, if_true, if_false]; rfl
     · intro n s
-      obtain ⟨r, cur⟩ := s
+      obtain ⟨r, cur, ex⟩ := s
       simp only [scanSt]
       by_cases hc : cur = 0
       · simp only [hc, ne_eq, not_true_eq_false, not_false_eq_true, if_true]; rfl
@@ -108,52 +126,66 @@ theorem insert_eq (hash : β → Nat) (d : HRec β) (m : HImage β) (v : β) :
         · simp only [hc, hv, ne_eq, not_false_eq_true, not_true_eq_false, if_true, if_false]; rfl
         · simp only [hc, hv, ne_eq, not_false_eq_true, not_true_eq_false, if_true, if_false]; rfl
 
-/-- The state `(early result, image, current, previous)` of the unlink loop of `remove` after `n` iterations. -/
+/-- The state `(early result, image, current, previous, left by its condition)` of the unlink loop of `remove`. -/
 def remSt (d : HRec β) (v : β) (index : Nat) :
-    Nat → Option (HImage β × Bool) × HImage β × Nat × Nat → Option (HImage β × Bool) × HImage β × Nat × Nat
+    Nat → Option (HImage β × Bool) × HImage β × Nat × Nat × Bool →
+      Option (HImage β × Bool) × HImage β × Nat × Nat × Bool
   | 0, s => s
   | n + 1, s =>
     let mm := s.2.1
     let cur := s.2.2.1
-    let prev := s.2.2.2
-    if cur = 0 then (none, mm, cur, prev)
+    let prev := s.2.2.2.1
+    if cur = 0 then (none, mm, cur, prev, true)
     else if (rd d mm cur).val = v then
       let m1 :=
         if prev = 0 then wrB mm index fun r => { r with bucket := (rd d mm cur).next }
         else wr mm prev fun r => { r with next := (rd d mm cur).next }
-      (some (HImp.removeNode d m1 cur, true), HImp.removeNode d m1 cur, cur, prev)
-    else remSt d v index n (none, mm, (rd d mm cur).next, cur)
+      (some (HImp.removeNode d m1 cur, true), HImp.removeNode d m1 cur, cur, prev, s.2.2.2.2)
+    else remSt d v index n (none, mm, (rd d mm cur).next, cur, s.2.2.2.2)
 
 theorem remSt_spec (d : HRec β) (v : β) (index : Nat) (mm : HImage β) (n cur prev : Nat) :
-    (match (remSt d v index n (none, mm, cur, prev)).1 with
-      | some r => r
-      | none => ((remSt d v index n (none, mm, cur, prev)).2.1, false)) = removeScan d mm v index n cur prev := by
+    (match (remSt d v index n (none, mm, cur, prev, false)).1 with
+      | some r => some r
+      | none => if (remSt d v index n (none, mm, cur, prev, false)).2.2.2.2 = true
+          then some ((remSt d v index n (none, mm, cur, prev, false)).2.1, false) else none)
+    = if HImp.scanT d mm v n cur then some (removeScan d mm v index n cur prev) else none := by
   induction n generalizing cur prev with
   | zero => rfl
   | succ n ih =>
-    simp only [remSt, removeScan]
+    simp only [remSt, removeScan, HImp.scanT]
     by_cases hc : cur = 0
     · simp [hc]
     · by_cases hv : (rd d mm cur).val = v
       · simp [hc, hv]
       · simp only [hc, hv, if_false]; exact ih _ _
 
+/-- `remove`: the translation is the literal `remove`, provided the chain scan leaves by its own condition (or finds
+    the value) within the fuel; otherwise it fails. -/
 theorem remove_eq (hash : β → Nat) (d : HRec β) (m : HImage β) (v : β) :
-    remove hash d m v = HImp.remove hash d m v := by
+    remove hash d m v =
+      if m.hdr.size = 0 ∨ HImp.scanT d m v (m.recs.length + 1) (rdB d m (bucketIndex hash m v)).bucket = true
+      then some (HImp.remove hash d m v) else none := by
   unfold remove HImp.remove
-  simp only [forIn, Id.run, is_empty_eq, bucketIndex, decide_eq_true_eq]
+  simp only [forIn, is_empty_eq, bucketIndex, decide_eq_true_eq]
   by_cases h0 : m.hdr.size = 0
-  · simp only [h0, if_true]; rfl
-  · simp only [h0, if_false]
-    rw [Fuel.forIn_eq_of _ (remSt d v (hash v % 4294967296 % m.hdr.cap)) (fun s => rfl)]
-    · simp only [pure_bind]
-      have := remSt_spec d v (hash v % 4294967296 % m.hdr.cap) m (m.recs.length + 1)
+  · simp only [h0, true_or, if_true]; rfl
+  · simp only [h0, false_or, if_false]
+    rw [Fuel.forIn_eq_of_opt _ (remSt d v (hash v % 4294967296 % m.hdr.cap)) (fun s => rfl)]
+    · have := remSt_spec d v (hash v % 4294967296 % m.hdr.cap) m (m.recs.length + 1)
         (rdB d m (hash v % 4294967296 % m.hdr.cap)).bucket 0
+      simp only [Option.bind_eq_bind, Option.bind_some]
       rw [← this]
       cases (remSt d v (hash v % 4294967296 % m.hdr.cap) (m.recs.length + 1)
-        (none, m, (rdB d m (hash v % 4294967296 % m.hdr.cap)).bucket, 0)).1 <;> rfl
+        (none, m, (rdB d m (hash v % 4294967296 % m.hdr.cap)).bucket, 0, false)).1 with
+      | some r => rfl
+      | none =>
+        simp only []
+        by_cases hx : (remSt d v (hash v % 4294967296 % m.hdr.cap) (m.recs.length + 1)
+          (none, m, (rdB d m (hash v % 4294967296 % m.hdr.cap)).bucket, 0, false)).2.2.2.2 = true
+        · simp only [hx, not_true_eq_false, if_false, if_true]; rfl
+        · simp only [hx, not_false_eq_true, if_true, if_false]; rfl
     · intro n s
-      obtain ⟨r, mm, cur, prev⟩ := s
+      obtain ⟨r, mm, cur, prev, ex⟩ := s
       simp only [remSt]
       by_cases hc : cur = 0
       · simp only [hc, ne_eq, not_true_eq_false, not_false_eq_true, if_true]; rfl
